@@ -160,7 +160,8 @@ class Credits(Mode):
 
         for index, pricing_tier in enumerate(self.credits_config['pricing_tiers']):
             price = pricing_tier['price'].evaluate([])
-            credit_units = price / self.credit_unit
+            # (rounded: .60 / .10 is 5.999999999999999 in floating point)
+            credit_units = int(round(price / self.credit_unit))
             credits_in_tier = pricing_tier['credits'].evaluate([])
             actual_credit_units = self.credit_units_per_game * credits_in_tier
             bonus = actual_credit_units - credit_units
